@@ -42,6 +42,17 @@ var famBounds = map[string][3]int64{
 	"ia-nesting-broken":          {166, 217, 16},
 	"iaaddr-nesting-broken":      {92, 217, 16},
 	"4rd-nesting-broken":         {262, 2, 16},
+	"iana-nesting":               {125, 648, 67},
+	"iapd-nesting":               {125, 648, 67},
+	"iaprefix-nesting":           {112, 649, 55},
+	"iapd-iaprefix-nesting":      {119, 649, 59},
+	"iana-iaaddr-nesting":        {111, 648, 56},
+	"iaprefix-nesting-broken":    {97, 218, 16},
+	"iana-siblings":              {182, 0, 72},
+	"iata-siblings":              {247, 0, 121},
+	"iapd-siblings":              {182, 0, 72},
+	"iaaddr-siblings":            {158, 0, 52},
+	"iaprefix-siblings":          {164, 0, 58},
 	"minimal-options":            {64, 0, 16},
 	"oro-flood":                  {103, 0, 20},
 	"class-item-overrun":         {483, 0, 16},
